@@ -106,7 +106,7 @@ PROPS["C18"] = {
 BIND_TB = ["modelled, not verified: compress/flate (abstract; exercised end to end by the harness), url.Parse / URL.String on the IdP endpoint "
            "(the model takes the endpoint's raw query as given), etree serialisation of the message"]
 PROPS["C12"] = {
-    "modules": ["SamlVerif.Props.C12", "SamlVerif.Props.TransMiddleware", "SamlVerif.Props.PureSaml"],
+    "modules": ["SamlVerif.Props.C12", "SamlVerif.Props.TransMiddleware", "SamlVerif.Props.TransBinding", "SamlVerif.Props.PureSaml"],
     "trusted_base": BIND_TB,
     "assumptions": ["inflate(deflate b) = b", "POST forms: C12_post_form is stated over the template skeleton that C14_form_skeletons / C12_post_templates tie to the source"],
     "rule": "24 fixed hostile relay states/name IDs (& = # + % ; ? blanks quotes NUL-free controls, non-ASCII, >80 bytes) x 4 IdP endpoints (with/without query) "
@@ -115,7 +115,7 @@ PROPS["C12"] = {
             "message IDs under a recording RandReader; since the seeded-change rounds: POST forms: sequences of 1-6 creations on one SP with every form read after the last creation; hostile strings (]]> CR LF TAB < & quotes) in attribute positions (InResponseTo, entity IDs, endpoint queries) x three message kinds x both bindings; short-read RandReader",
 }
 PROPS["C13"] = {
-    "modules": ["SamlVerif.Props.C13", "SamlVerif.Props.TransMiddleware", "SamlVerif.Props.PureSaml"],
+    "modules": ["SamlVerif.Props.C13", "SamlVerif.Props.TransMiddleware", "SamlVerif.Props.TransBinding", "SamlVerif.Props.PureSaml"],
     "trusted_base": BIND_TB + ["RSA/ECDSA signing and goxmldsig enveloped signing are primitives (parameter `sign`); verification in the harness uses crypto/rsa, "
                               "crypto/ecdsa directly for the redirect binding and a fresh goxmldsig validation context for XML signatures"],
     "assumptions": [],
@@ -272,7 +272,7 @@ for pid, fns in {"C01": "parseResponse / parseAssertion / parseEncryptedAssertio
                  "C08": "IdpAuthnRequest.getSPEncryptionCert (the selection of the certificate string, up to its decoding)",
                  "C10": "xmlenc appendPadding / stripPadding / the framing of CBC.Decrypt", "C11": "xmlenc stripPadding / the framing of CBC.Decrypt",
                  "C16": "samlsp CookieSessionProvider.GetSession",
-                 "C12": "samlsp Middleware.HandleStartAuthFlow (the choice of binding and location)",
+                 "C12": "samlsp Middleware.HandleStartAuthFlow (the choice of binding and location) / ServiceProvider.GetSSOBindingLocation / GetSLOBindingLocation",
                  "C13": "samlsp Middleware.HandleStartAuthFlow (the choice of binding and location)",
                  "C06": "IdentityProvider.ServeSSO (the gate before the assertion is made)",
                  "C19": "samlidp Server.GetSession (the credential guards and the branch for requests without credentials) / IdentityProvider.ServeSSO (the gate)",
